@@ -551,19 +551,9 @@ func (vm *VM) nextCall() bool {
 			// A deferred call is returned. If there is another deferred
 			// call, it will be executed, otherwise the previous call will be
 			// finalized.
-			if i > 0 {
-				prev := vm.calls[i-1]
-				if prev.status == deferred {
-					vm.swapStack(&prev.fp, &call.fp, call.cl.fn.NumReg)
-					call, vm.calls[i-1] = prev, call
-					break
-				}
-			}
-			if regs := call.cl.fn.FinalRegs; regs != nil {
-				vm.fp = call.fp
-				vm.finalize(regs)
-			}
 			if call.status == recovered {
+				// The deferred call that recovered the panic is returned:
+				// remove the panics that are no longer active.
 				numPanicked := 0
 				for _, c := range vm.calls {
 					if c.status == panicked {
@@ -578,6 +568,20 @@ func (vm *VM) nextCall() bool {
 					p = p.next
 					vm.panic = p
 				}
+				call.status = returned
+				vm.calls[i].status = returned
+			}
+			if i > 0 {
+				prev := vm.calls[i-1]
+				if prev.status == deferred {
+					vm.swapStack(&prev.fp, &call.fp, call.cl.fn.NumReg)
+					call, vm.calls[i-1] = prev, call
+					break
+				}
+			}
+			if regs := call.cl.fn.FinalRegs; regs != nil {
+				vm.fp = call.fp
+				vm.finalize(regs)
 			}
 			continue
 		case panicked:
